@@ -524,6 +524,10 @@ def pre_family():
         ('and', B('exists', J(('AX', V())), 'L0'), ('AX', B('exists', J(('AX', V()))))),
         ('and', B('forall', ('AX', V()), 'L0'), ('AX', B('forall', ('AX', V()), 'L1'))),
         ('and', B('bind', ('EF', V()), 'L0'), ('AX', B('bind', ('EF', V())))),
+        # a sub-formula with two free variables repeated under nested domains that agree on the first and differ on the second
+        # variable's domain (and the swapped assignment of the same two labels): identical domains of EVERY free variable
+        ('and', B('bind', B('bind', ('and', ('AX', V()), ('EF', V())), 'L1'), 'L0'), B('bind', B('bind', ('and', ('AX', V()), ('EF', V())), 'L2'), 'L0')),
+        ('and', B('exists', B('forall', ('and', ('AX', V()), ('EF', V())), 'L1'), 'L0'), ('AX', B('exists', B('forall', ('and', ('AX', V()), ('EF', V())), 'L0'), 'L1'))),
     ]
 
 class _First:
